@@ -516,6 +516,9 @@ def target_ops(M, tree, path, budget="full"):
         if second or multi:
             add(["adjustMassFrac", p, {"nuclideToAdjust": one, "nuclideToHoldConstant": second or multi, "val": 0.1}], small=False)
     add(["clear", p], deep=True)
+    if node["lvl"] == "component":
+        # empty the component completely (solids, fluids and void all occur among the component targets)
+        add(["setNDs", p, {"empty": True}], deep=True)
     if node["lvl"] == "component" and one and len(path) >= 1:
         sib = M.at(tree, path[:-1])["kids"]
         other = (path[-1] + 1) % len(sib)
@@ -651,6 +654,8 @@ def concrete_args(M, pre, op):
         d.update({n: float(v) for n, v in op[2].get("abs", {}).items()})
         return {"d": d}
     if name == "setNDs":
+        if op[2].get("empty"):
+            return {"d": {}}  # boundary value: the empty container (no keys), not zeros with keys kept
         ns = op[2].get("only") or M.nucs(T)
         return {"d": {n: op[2]["mul"] * M.N(T, n) for n in ns}}
     if name == "shareNDs":
@@ -1256,6 +1261,8 @@ def invariants(s, M, tree, case, full_paths=None, root=None, suffix=""):
 
         def masses():
             ms = o.getMasses()
+            if "mtot" in q and not q.get("vbad") and not close(q["mtot"], sum(ms.values()), scale=max([abs(x) for x in ms.values()] or [0.0])):
+                bad("getMasses-total", node, path, "getMass() = %r g, sum of getMasses() = %r g (%d nuclides)" % (q["mtot"], sum(ms.values()), len(ms)))
             for n in probe if not q.get("vbad") else []:
                 gm = o.getMass(n)
                 if not close(ms.get(n, 0.0), gm):
